@@ -7,6 +7,7 @@ from pyopenapi_gen import IROperation
 from ...context.render_context import RenderContext
 from ...core.utils import NameSanitizer
 from ...core.writers.code_writer import CodeWriter
+from ...core.writers.documentation_writer import escape_docstring_text
 from ..visitor import Visitor
 from .generators.endpoint_method_generator import EndpointMethodGenerator
 
@@ -211,7 +212,10 @@ class EndpointVisitor(Visitor[IROperation, str]):
         # Class definition - implements Protocol
         writer.write_line(f"class {class_name}({protocol_name}):")
         writer.indent()
-        writer.write_line(f'"""Client for {tag} endpoints. Uses HttpTransport for all HTTP and header management."""')
+        writer.write_line(
+            f'"""Client for {escape_docstring_text(tag)} endpoints. '
+            'Uses HttpTransport for all HTTP and header management."""'
+        )
         writer.write_line("")
 
         writer.write_line("def __init__(self, transport: HttpTransport, base_url: str) -> None:")
